@@ -25,6 +25,7 @@ CONSTANTS
   MaxAdm = 8
   Acts = {"Bad", "Query", "Tick", "Unban", "MUnban"}
   Atomic = FALSE
+  BlForms = {"ip", "net"}
   Fixed = {}
   EmitActs = {}
   MaxHist = 999
